@@ -199,3 +199,110 @@ Proof.
     destruct (set_nodes_from_facts (S "element") (map (fun k => (k, VStr (S "H"))) keep) g8) as [_ [_ N9]].
     rewrite N9 by (apply Nw; cbn; tauto). exact V8.
 Qed.
+
+(** ** the EXACT value of every other key on the template atom: what the annotation says, else what pysmiles said *)
+Fixpoint zassoc {A} (k : Z) (l : list (Z * A)) : option A :=
+  match l with [] => None | (k', v) :: r => if Z.eqb k k' then Some v else zassoc k r end.
+Lemma zassoc_notin {A} k (l : list (Z * A)) : ~ In k (map fst l) -> zassoc k l = None.
+Proof.
+  induction l as [|[k' v] r IH]; cbn; intros H; [reflexivity|].
+  destruct (Z.eqb_spec k k') as [->|N]; [exfalso; apply H; now left|]. apply IH. intros HI; apply H; now right.
+Qed.
+Lemma zassoc_in {A} k (l : list (Z * A)) v : zassoc k l = Some v -> In (k, v) l.
+Proof.
+  induction l as [|[k' w] r IH]; cbn; intros H; [discriminate|].
+  destruct (Z.eqb_spec k k') as [->|N]; [inversion H; now left|right; now apply IH].
+Qed.
+Definition annotated_value (key : pystr) (ann : option attrs) (old : option pyval) : option pyval :=
+  match ann with Some a => match aget key a with Some v => Some v | None => old end | None => old end.
+Lemma aget_aupdate_dict old a key : NoDup (map fst a) ->
+  aget key (aupdate old a) = match aget key a with Some v => Some v | None => aget key old end.
+Proof. intros ND. rewrite aget_aupdate, assoc_rev by exact ND. now rewrite <- aget_assoc. Qed.
+Lemma set_attr_dicts_exact d : forall g j key, NoDup (map fst d) -> (forall i a, In (i, a) d -> NoDup (map fst a)) ->
+  node_get (set_attr_dicts g d) j key = match gfind j g with Some _ => annotated_value key (zassoc j d) (node_get g j key) | None => None end.
+Proof.
+  unfold set_attr_dicts. induction d as [|[k b] r IH]; intros g j key ND Hd; cbn [fold_left zassoc].
+  - unfold annotated_value, node_get. now destruct (gfind j g).
+  - inversion ND as [|? ? Hn Hr]; subst. cbn [fst snd].
+    rewrite IH; [|exact Hr|intros i a Hi; apply (Hd i a); now right].
+    rewrite gfind_gupdate by reflexivity. unfold node_get. rewrite gfind_gupdate by reflexivity.
+    destruct (Z.eqb_spec j k) as [->|N].
+    + rewrite (zassoc_notin k r Hn). destruct (gfind k g) as [n|]; cbn; [|reflexivity].
+      unfold annotated_value. apply aget_aupdate_dict. apply (Hd k b). now left.
+    + destruct (gfind j g); reflexivity.
+Qed.
+
+Ltac nes := let E := fresh in intros E; apply str_eqb_eq in E; vm_compute in E; discriminate E.
+Definition default_keys : list pystr := [S "fragname"; S "fragid"; S "weight"; S "bonding"].
+
+Theorem template_exact_post g0 fragname bonding ez attributes g j key :
+  read_fragment_post g0 fragname bonding ez attributes = Ok g ->
+  NoDup (node_keys g0) -> NoDup (map fst attributes) -> (forall i a, In (i, a) attributes -> NoDup (map fst a)) ->
+  has_node g0 j = true ->
+  (In j (map fst attributes) \/ node_get g0 j (S "element") <> Some (VStr (S "H"))) ->
+  (forall a, zassoc j attributes = Some a -> aget (S "element") a = None) ->
+  ~ In key written_keys -> ~ In key default_keys ->
+  node_get g j key = annotated_value key (zassoc j attributes) (node_get g0 j key).
+Proof.
+  intros H ND NDa NDk Hj0 Hcase Hel Hw Hdk. unfold read_fragment_post in H.
+  assert (Nw : forall w, In w written_keys -> key <> w) by (intros w Hwi E; apply Hw; now rewrite E).
+  assert (Nd : forall w, In w default_keys -> key <> w) by (intros w Hwi E; apply Hdk; now rewrite E).
+  set (g3 := set_all_nodes (set_all_nodes (set_all_nodes g0 (S "fragname") (VStr fragname)) (S "fragid") (VInt 0)) (S "weight") (VInt 1)) in *.
+  set (g4 := set_nodes_from g3 (S "bonding") bonding) in *.
+  set (g5 := set_attr_dicts g4 attributes) in *.
+  assert (K3 : node_keys g3 = node_keys g0) by (unfold g3; now rewrite !keys_set_all).
+  destruct (set_nodes_from_facts (S "bonding") bonding g3) as [K4' [_ N4]]. fold g4 in K4', N4.
+  assert (K4 : node_keys g4 = node_keys g0) by congruence.
+  assert (K5 : node_keys g5 = node_keys g0) by (unfold g5; now rewrite keys_set_attr_dicts).
+  assert (G4 : forall k, k <> S "fragname" -> k <> S "fragid" -> k <> S "weight" -> k <> S "bonding" -> node_get g4 j k = node_get g0 j k).
+  { intros k A1 A2 A3 A4. rewrite N4 by exact A4. unfold g3. now rewrite !node_get_set_all. }
+  assert (H4 : has_node g4 j = true) by (rewrite (has_keys_eq g0 g4 j K4); exact Hj0).
+  assert (V5 : forall k, k <> S "fragname" -> k <> S "fragid" -> k <> S "weight" -> k <> S "bonding" ->
+                 node_get g5 j k = annotated_value k (zassoc j attributes) (node_get g0 j k)).
+  { intros k A1 A2 A3 A4. unfold g5. rewrite (set_attr_dicts_exact attributes g4 j k NDa NDk).
+    unfold has_node in H4. destruct (gfind j g4); [|discriminate]. now rewrite G4. }
+  assert (Vk : node_get g5 j key = annotated_value key (zassoc j attributes) (node_get g0 j key))
+    by (apply V5; apply Nd; cbn; tauto).
+  match type of H with bind ?m _ = _ => destruct m as [names|] end; cbn [bind] in H; [|discriminate].
+  set (g6 := set_nodes_from g5 (S "atomname") names) in *.
+  destruct (set_nodes_from_facts (S "atomname") names g5) as [K6 [_ N6]]. fold g6 in K6, N6.
+  assert (V6 : node_get g6 j key = node_get g5 j key) by (apply N6; apply Nw; cbn; tauto).
+  assert (K6' : node_keys g6 = node_keys g0) by congruence.
+  assert (E6 : node_get g6 j (S "element") = annotated_value (S "element") (zassoc j attributes) (node_get g0 j (S "element"))).
+  { rewrite N6 by nes. apply V5; nes. }
+  destruct (Nat.eqb (length g6) 1).
+  - destruct (gfind 0 g6) as [n06|]; cbn [of_option bind] in H; [|discriminate].
+    destruct (aget (S "element") (na n06)) as [e|]; cbn [of_option bind] in H; [|discriminate].
+    destruct (pyval_eqb e (VStr (S "H"))); inversion H; subst g;
+      (rewrite node_get_set_other; [now rewrite V6|apply Nw; cbn; tauto]).
+  - set (hatoms := flat_map (fun n => if pyval_eqb (getd (S "element") (na n) VNone) (VStr (S "H")) then [nk n] else []) g6) in *.
+    set (keep := filter (fun k => existsb (fun kv : Z * attrs => Z.eqb (fst kv) k) attributes) hatoms) in *.
+    set (g7 := set_nodes_from g6 (S "element") (map (fun k => (k, VStr (S "z"))) keep)) in *.
+    destruct (set_nodes_from_facts (S "element") (map (fun k => (k, VStr (S "z"))) keep) g6) as [K7 [_ N7]]. fold g7 in K7, N7.
+    assert (V7 : node_get g7 j key = node_get g6 j key) by (apply N7; apply Nw; cbn; tauto).
+    assert (Hi7 : has_node g7 j = true) by (rewrite (has_keys_eq g0 g7 j); [exact Hj0|congruence]).
+    assert (NH : ~ is_H g7 j).
+    { unfold is_H. destruct (in_dec Z.eq_dec j keep) as [Ik|Nk].
+      - unfold g7. rewrite (set_from_get (S "element") (map (fun k => (k, VStr (S "z"))) keep) g6 j (VStr (S "z"))).
+        + intros X. inversion X.
+        + rewrite map_map. cbn [fst]. rewrite map_id. apply filter_nodup. apply flat_keys_nodup. now rewrite K6'.
+        + apply in_map_iff. exists j. auto.
+        + rewrite (has_keys_eq g0 g6 j K6'). exact Hj0.
+      - unfold g7. rewrite node_get_from_other by (rewrite map_map; cbn [fst]; now rewrite map_id).
+        intros X. destruct Hcase as [Hin|Hne].
+        + apply Nk. unfold keep. apply filter_In. split.
+          * unfold hatoms. apply in_flat_map. unfold node_get in X. destruct (gfind j g6) as [n6|] eqn:G6; [|discriminate].
+            exists n6. split; [now apply gfind_In in G6|]. unfold getd. rewrite X, pyval_eqb_str. left. now apply gfind_key in G6.
+          * apply in_map_iff in Hin as ([j' a] & Ej & Hin). cbn in Ej. subst j'. apply existsb_exists. exists (j, a). split; [exact Hin|apply Z.eqb_refl].
+        + apply Hne. rewrite E6 in X. unfold annotated_value in X. destruct (zassoc j attributes) as [a|] eqn:Za; [|exact X].
+          rewrite (Hel a eq_refl) in X. exact X. }
+    destruct (remove_explicit_hydrogens g7) as [g8|] eqn:E8; cbn [bind] in H; [|discriminate].
+    destruct (remove_h_keeps g7 g8 j E8 Hi7 NH) as [Hi8 N8].
+    assert (V8 : node_get g8 j key = node_get g7 j key) by (apply N8; apply Nw; cbn; tauto).
+    match type of H with bind ?m _ = _ => destruct m as [cls|] end; cbn [bind] in H; [|discriminate]. inversion H; subst g.
+    destruct (set_nodes_from_facts (S "ez_isomer_class") cls
+                (set_nodes_from g8 (S "element") (map (fun k => (k, VStr (S "H"))) keep))) as [_ [_ N10]].
+    rewrite N10 by (apply Nw; cbn; tauto).
+    destruct (set_nodes_from_facts (S "element") (map (fun k => (k, VStr (S "H"))) keep) g8) as [_ [_ N9]].
+    rewrite N9 by (apply Nw; cbn; tauto). now rewrite V8, V7, V6.
+Qed.
